@@ -189,6 +189,73 @@ func (m *Machine) symLen(lo, hi uint64, hint string) Int {
 func (m *Machine) setupModels() {
 	reg := func(name string, f Intrinsic) { m.intr[name] = f }
 
+	// ---- sync: one goroutine executes, so locks are no-ops; sync.Map is a
+	// keyed table attached to the receiver (its real source needs
+	// sync/atomic and unsafe.Pointer).  Keys must be concrete.
+	nop := func(m *Machine, a []Val) Val { return nil }
+	for _, n := range []string{"(*sync.Mutex).Lock", "(*sync.Mutex).Unlock", "(*sync.RWMutex).Lock", "(*sync.RWMutex).Unlock", "(*sync.RWMutex).RLock", "(*sync.RWMutex).RUnlock"} {
+		reg(n, nop)
+	}
+	type syncMap struct {
+		keys []interface{}
+		vals map[interface{}]Val
+		kv   map[interface{}]Val
+	}
+	smap := func(m *Machine, recv Val) *syncMap {
+		p := recv.(Ptr).P
+		if st, ok := m.sideTab[p].(*syncMap); ok {
+			return st
+		}
+		st := &syncMap{vals: map[interface{}]Val{}, kv: map[interface{}]Val{}}
+		m.sideTab[p] = st
+		return st
+	}
+	skey := func(v Val) interface{} {
+		if i, ok := v.(Iface); ok {
+			if i.T == nil {
+				return nil
+			}
+			return [2]interface{}{i.T.String(), mapKey(i.V)}
+		}
+		return mapKey(v)
+	}
+	reg("(*sync.Map).Load", func(m *Machine, a []Val) Val {
+		st := smap(m, a[0])
+		if v, ok := st.vals[skey(a[1])]; ok {
+			return Tuple{v, Bool{C: true}}
+		}
+		return Tuple{Iface{}, Bool{C: false}}
+	})
+	reg("(*sync.Map).Store", func(m *Machine, a []Val) Val {
+		st := smap(m, a[0])
+		m.checkGlobalWrite(a[0].(Ptr).P)
+		k := skey(a[1])
+		if _, ok := st.vals[k]; !ok {
+			st.keys = append(st.keys, k)
+		}
+		st.vals[k] = a[2]
+		st.kv[k] = a[1]
+		return nil
+	})
+	reg("(*sync.Map).LoadOrStore", func(m *Machine, a []Val) Val {
+		st := smap(m, a[0])
+		k := skey(a[1])
+		if v, ok := st.vals[k]; ok {
+			return Tuple{v, Bool{C: true}}
+		}
+		m.checkGlobalWrite(a[0].(Ptr).P)
+		st.keys = append(st.keys, k)
+		st.vals[k] = a[2]
+		st.kv[k] = a[1]
+		return Tuple{a[2], Bool{C: false}}
+	})
+	reg("(*sync.Map).Delete", func(m *Machine, a []Val) Val {
+		st := smap(m, a[0])
+		m.checkGlobalWrite(a[0].(Ptr).P)
+		delete(st.vals, skey(a[1]))
+		return nil
+	})
+
 	// ---- bytes.Buffer (Write/Read family; growth uses recover in the real one)
 	reg("(*bytes.Buffer).Write", func(m *Machine, a []Val) Val {
 		bf := bufField(a[0])
